@@ -12,6 +12,7 @@ import (
 	"runtime"
 	"runtime/metrics"
 	"sort"
+	"strconv"
 	"strings"
 	"unsafe"
 )
@@ -615,4 +616,83 @@ func deepCopy(v reflect.Value) reflect.Value {
 	}
 	cp(out, addressable(v))
 	return out
+}
+
+// numberClasses names the kinds of arbitrary-precision and floating-point numbers an object carries, for the
+// coverage report: a codec that rounds to 64 bits, to a float32/float64 or to a shortened decimal text is visible only
+// on values that need more. (big.Int words are filled with 60-bit random words by the generator and are not classified.)
+var numberClassNames = []string{"big.Float:mantissa>64bits", "big.Float:mantissa<=64bits", "big.Float:non-dyadic-at-prec-53", "big.Float:non-dyadic-at-prec-64",
+	"big.Float:non-dyadic-at-prec-128", "big.Float:non-dyadic-at-prec-256", "float64:needs-more-than-float32", "float64:not-a-short-decimal"}
+
+func numberClasses(obj any) []string {
+	seen := map[string]bool{}
+	var walk func(v reflect.Value, depth int)
+	walk = func(v reflect.Value, depth int) {
+		if depth > 12 || !v.IsValid() {
+			return
+		}
+		switch v.Kind() {
+		case reflect.Ptr, reflect.Interface:
+			if !v.IsNil() {
+				walk(v.Elem(), depth+1)
+			}
+		case reflect.Struct:
+			if v.Type() == bigFloatT {
+				if !v.CanAddr() {
+					c := reflect.New(v.Type()).Elem()
+					c.Set(v)
+					v = c
+				}
+				f := (*big.Float)(v.Addr().UnsafePointer())
+				if f.Sign() == 0 || f.IsInf() {
+					return
+				}
+				if f.MinPrec() > 64 {
+					seen["big.Float:mantissa>64bits"] = true
+				} else {
+					seen["big.Float:mantissa<=64bits"] = true
+				}
+				if f.MinPrec()+8 > f.Prec() { // (nearly) all bits of its precision significant
+					seen[fmt.Sprintf("big.Float:non-dyadic-at-prec-%d", f.Prec())] = true
+				}
+				return
+			}
+			if v.Type() == bigIntT {
+				return
+			}
+			for i := 0; i < v.NumField(); i++ {
+				walk(v.Field(i), depth+1)
+			}
+		case reflect.Slice, reflect.Array:
+			if k := v.Type().Elem().Kind(); k == reflect.Uint64 || k == reflect.Uint8 || k == reflect.Uint32 || k == reflect.Uint16 || k == reflect.Int {
+				return
+			}
+			for i := 0; i < v.Len(); i++ {
+				walk(v.Index(i), depth+1)
+			}
+		case reflect.Map:
+			for _, k := range v.MapKeys() {
+				walk(v.MapIndex(k), depth+1)
+			}
+		case reflect.Float64:
+			x := v.Float()
+			if x != float64(float32(x)) {
+				seen["float64:needs-more-than-float32"] = true
+			}
+			if len(strconv.FormatFloat(x, 'g', -1, 64)) >= 15 {
+				seen["float64:not-a-short-decimal"] = true
+			}
+		}
+	}
+	func() {
+		defer func() { _ = recover() }() // (classification only; an object reflect cannot walk is simply not classified)
+		walk(reflect.ValueOf(obj), 0)
+	}()
+	var r []string
+	for _, n := range numberClassNames {
+		if seen[n] {
+			r = append(r, n)
+		}
+	}
+	return r
 }
